@@ -577,6 +577,15 @@ func (p *Parser) ParsingIter() iter.Seq[*ParserReply] {
 				if err == nil && flushed {
 					continue
 				}
+				if err == ErrMoreInputNeeded {
+					// unfinished string or char literal: pause
+					// like ParseList does for an open paren.
+					p.sendMe.Err = err
+					if !yield(p.sendMe) {
+						return
+					}
+					continue
+				}
 			}
 			if err != nil || expr == SexpEnd {
 				p.sendMe.Err = err
